@@ -283,7 +283,10 @@ func effCommand(s *dag.Step) string {
 func stepFacts(s *dag.Step) map[string]any {
 	hasExec := effCommand(s) != "" || s.ExecutorConfig.Type != "" || s.SubWorkflow != nil
 	sigOK := s.SignalOnStop == "" || unix.SignalNum(s.SignalOnStop) != 0
-	return map[string]any{"name": hx(s.Name), "hasExec": hasExec, "sigOK": sigOK, "type": hx(s.ExecutorConfig.Type)}
+	// sigOK: the stop path (scheduler.Node.signal) resolves the STORED spelling with unix.SignalNum and sends
+	// the result; 0 would be "signal 0" (nothing delivered). stopSigNum is that number.
+	return map[string]any{"name": hx(s.Name), "hasExec": hasExec, "sigOK": sigOK, "type": hx(s.ExecutorConfig.Type),
+		"signal": hx(s.SignalOnStop), "stopSigNum": int(unix.SignalNum(s.SignalOnStop))}
 }
 
 func safeEval(conds []dag.Condition) (res string) {
